@@ -130,9 +130,15 @@ Print Assumptions C12_codeql_foreign_runs.
 (** Which tool a SARIF file is attributed to (sarifs.detect_sarif_tools): exact, and undisturbed by runs a detector cannot
     inspect or by other tools' runs, wherever they stand in the file. *)
 From CM Require Import Model.SarifTools Proofs.SarifToolsFacts.
-Theorem C12_sarif_attribution_exact : forall files m,
-  detect_tools files = TOk m ->
+Theorem C12_sarif_attribution_exact : forall ord files m,
+  (forall t, In t ord) ->                     (* every detector is iterated, in whatever order the entry points come *)
+  detect_tools_ord ord files = TOk m ->
   NoDup (map fst m) /\
   forall t f, In (t, f) m <-> exists runs, In (f, Some runs) files /\ exists run, In run runs /\ detect t run = DYes.
-Proof. exact detect_tools_exact. Qed.
+Proof. exact detect_tools_ord_exact. Qed.
 Print Assumptions C12_sarif_attribution_exact.
+(** Non-vacuity: two files, three runs (a foreign one first): detection succeeds and attributes both tools *)
+Example C12_sarif_attribution_example :
+  detect_tools w_tfiles = TOk [(TSemgrep, 0%N); (TCodeQL, 1%N)] /\
+  detect_tools_ord [TSemgrep; TCodeQL] w_tfiles = TOk [(TSemgrep, 0%N); (TCodeQL, 1%N)].
+Proof. split; vm_compute; reflexivity. Qed.
